@@ -30,8 +30,8 @@ type RouteTruth struct {
 }
 
 type RoutesTruth struct {
-	Routes []RouteTruth `json:"routes"`
-	PkgPath string      `json:"pkg_path"`
+	Routes  []RouteTruth `json:"routes"`
+	PkgPath string       `json:"pkg_path"`
 }
 
 const echoSource = `// Package echo is a substitute for the http framework echo package.
@@ -60,15 +60,15 @@ func (Echo) DELETE(string, func(Context) error, ...Middleware) {}
 `
 
 type routeGen struct {
-	r      *rand.Rand
-	id     string
-	pkg    string
-	truth  *RoutesTruth
-	body   strings.Builder // handlers and types
-	inner  strings.Builder // inner package
-	nh     int
-	types  []routeType
-	idType string
+	r         *rand.Rand
+	id        string
+	pkg       string
+	truth     *RoutesTruth
+	body      strings.Builder // handlers and types
+	inner     strings.Builder // inner package
+	nh        int
+	types     []routeType
+	idType    string
 	twinNames []string
 }
 
@@ -78,7 +78,7 @@ type routeType struct {
 	decl bool
 }
 
-func (g *routeGen) pr(x float64) bool         { return g.r.Float64() < x }
+func (g *routeGen) pr(x float64) bool        { return g.r.Float64() < x }
 func (g *routeGen) pick(xs ...string) string { return xs[g.r.Intn(len(xs))] }
 
 // NewRouteProg builds route file number idx. c14 restricts the contracts to
